@@ -56,7 +56,7 @@ def comment_lines(v, wd, thorough):
     """The line-based comment parsers (CommentLines.tla): model checking, four named deviations refuted, and every
     sequence of <= 5 line kinds from TLC rendered in nine language/comment styles and parsed by the real parsers."""
     mc = os.path.join(SPEC, "mc", "MC_CommentLines.tla")
-    for cfg in ("dev_tilde", "dev_closeany", "dev_uncounted", "dev_untracked"):
+    for cfg in ("dev_tilde", "dev_closeany", "dev_uncounted", "dev_untracked", "dev_anylength"):
         rd = common.tlc(mc, os.path.join(SPEC, "mc", f"MC_CommentLines_{cfg}.cfg"), "c04_cl_" + cfg, workers=2, timeout=600, coverage=False)
         if rd.violated != "OfferedIsProse":
             raise common.ToolError(f"MC_CommentLines_{cfg}: TLC did not refute OfferedIsProse (vacuous invariant)")
@@ -78,7 +78,7 @@ def comment_lines(v, wd, thorough):
     if n < 1000:
         raise common.ToolError(f"MC_CommentLines_gen produced only {n} cases")
     trace = os.path.join(wd, "trace_lines.ndjson")
-    rc, out, err = common.run_hv(["c04lines", "--cases", cases, "--out", trace, "--stride", 1 if thorough else 3], timeout=3600)
+    rc, out, err = common.run_hv(["c04lines", "--cases", cases, "--out", trace, "--stride", 1 if thorough else 4], timeout=3600)
     if rc != 0:
         raise common.ToolError("hv c04lines failed: " + err[-2000:])
     files = common.split_ndjson(trace, 4000, wd, "cl")
@@ -93,7 +93,7 @@ def comment_lines(v, wd, thorough):
         for rej in rejects:
             e = evs[rej[0] - 1]
             v.failure({"kind": rej[1], "level": "comment-lines", "lang": e.get("lang"), "style": e.get("style"),
-                       "fences": sorted({k for k in e.get("kinds", []) if k in ("bt", "tl")})}, {"event": e, "comment_lines": True})
+                       "fences": sorted({k for k in e.get("kinds", []) if k not in ("prose", "dir")})}, {"event": e, "comment_lines": True})
     v.cov["evaluations"] += nev
     v.cov["traces_validated_against_impl"] += nev
     v.cov["tlc_cases_replayed"] = v.cov.get("tlc_cases_replayed", 0) + n
